@@ -126,6 +126,8 @@ def gen_F(g: docops.Gen) -> Optional[dict]:
                 else:
                     op['items'] = batch
                 if ok:
+                    if kind in ('setslice', 'extend') and rng.random() < 0.4:
+                        op['as_iter'] = True
                     faults.append(op)
         # F2
         if rng.random() < 0.5:
